@@ -21,9 +21,12 @@ import time
 import traceback
 
 ROOT = os.path.dirname(os.path.dirname(os.path.abspath(__file__)))
-EVIDENCE_DIR = os.path.join(ROOT, "evidence")
-REPLAY_DIR = os.path.join(ROOT, "replays")
-LOG_DIR = os.path.join(ROOT, "logs")
+# VERIF_OUT redirects everything a run writes (used when the checks are pointed at a scratch tree with VERIF_REPO, so
+# that such runs never touch the evidence of /repo)
+OUT = os.environ.get("VERIF_OUT") or ROOT
+EVIDENCE_DIR = os.path.join(OUT, "evidence")
+REPLAY_DIR = os.path.join(OUT, "replays")
+LOG_DIR = os.path.join(OUT, "logs")
 KNOWN = os.path.join(ROOT, "known_findings.json")
 PY = "/venv/bin/python"
 
